@@ -514,6 +514,21 @@ def probe_rules():
     f = adv.make(cfg)
     adv.fit(f, cfg, adv.data(cfg, 0, 2))
     rules["F5d"] = "1" if same_snapshot(snapshot(adv, e, cfg, 0), snapshot(adv, f, cfg, 0), adv.atol) else "0"
+    # static path found by the lifter (fitHistoryReads CR = ["lookup_"]): `_create_lookup` returns early for 1-d input
+    # without setting `lookup_`.  It is dead iff fit on 1-d input raises, fresh and after an earlier fit.
+    dead = True
+    for prior in (False, True):
+        e = cr.make("nd-same")
+        if prior:
+            cr.fit(e, "nd-same", cr.data("nd-same", 0, 1))
+        try:
+            e.fit(np.array([1.0, 2.0, 3.0, 5.0]))
+            dead = False
+        except ValueError:
+            pass
+        except Exception:  # noqa: BLE001
+            dead = False
+    rules["cr1d"] = "dead" if dead else "live"
     _RULES = rules
     return rules
 
@@ -575,7 +590,9 @@ def run_sequence(ad, cfg, pair, ops):
                 rec["detail"] = str(e)[:80]
         elif op[0] == "p":
             seed = int(op[1:])
+            attrs_before = sorted(vars(est))
             a = {k: observe_call(t) for k, t in ad.probes(est, cfg, pair, seed).items()}
+            rec["new_attrs"] = sorted(set(vars(est)) ^ set(attrs_before))
             b = {k: observe_call(t) for k, t in ad.probes(est, cfg, pair, seed).items()}
             oks = [k for k in sorted(a) if a[k][0] == "arr"]
             rec["res"] = "ok" if oks else "raise." + a[sorted(a)[0]][1]
@@ -743,8 +760,11 @@ class CHECK(Check):
         w = ",".join(str(x) for x in ad.widths(case["cfg"]))
         ops = ",".join(case["ops"]) if case["ops"] else "-"
         cfg = ad.lean_cfg(case["cfg"])
+        src_cfg = cfg if ad.lean in ("eg", "adv") else "-"
         return [f"lifecycle.run {ad.lean} {ad.rule_bits(o['rules'])} {cfg} {w} {ops}",
-                f"lifecycle.run {ad.lean} {ad.repaired_bits()} {cfg} {w} {ops}"]
+                f"lifecycle.run {ad.lean} {ad.repaired_bits()} {cfg} {w} {ops}",
+                f"lifesrc.run {ad.lean} {src_cfg} {w} {ops}",
+                "lifesrc.flags"]
 
     # ---------------------------------------------------------------- judging
     def judge(self, case, o, mo):
@@ -797,6 +817,9 @@ class CHECK(Check):
                 if not rec["same"]:
                     probs.append(mk("property", f"{where}: predict altered the fitted state",
                                     "C19.predict_pure", what="state", **base))
+                if rec.get("new_attrs"):
+                    probs.append(mk("property", f"{where}: predict added / removed attributes of the estimator: "
+                                    f"{rec['new_attrs']}", "C19.predict_pure", what="attrs", **base))
                 if not tainted:
                     if scls == "U" and rec["res"] != "raise.NotFittedError":
                         probs.append(mk("correspondence", f"{where}: predict on an unfitted estimator gave {rec['res']}",
@@ -821,9 +844,32 @@ class CHECK(Check):
                                     "C19.clone", what="state", **base))
         # ---- Lean model ----------------------------------------------------------------------
         if mo is not None:
-            if len(mo) != 2 or "bad-op" in mo:
+            if len(mo) != 4 or "bad-op" in mo:
                 return probs + [Problem("harness", f"driver rejected the case: {mo}")]
-            cur, rep = [[t.split(":") for t in line.split(";")] if line != "-" else [] for line in mo]
+            cur, rep, src = [[t.split(":") for t in line.split(";")] if line != "-" else [] for line in mo[:3]]
+            flags = dict(kv.split("=", 1) for kv in mo[3].split(" "))
+            # (c) the rule vector the lifter derived from the source text == the rule vector probed at run time
+            for key in ("F5a", "F5b.GS", "F5b.EG", "F5c", "F5d", "F5e"):
+                if flags.get(key) != o["rules"].get(key):
+                    probs.append(mk("correspondence",
+                                    f"rule {key}: lifted from the source = {flags.get(key)}, probed on the running code = "
+                                    f"{o['rules'].get(key)} (flags {mo[3]})", "C19.static_vs_probe", cls=name, cfg=cfg))
+                    break
+            if o["rules"].get("cr1d") != "dead":
+                probs.append(mk("correspondence", "CorrelationRemover.fit on 1-d input no longer raises: the static path "
+                                "that leaves lookup_ of an earlier fit in place is live", "C19.cr_1d_path_dead",
+                                cls=name, cfg=cfg))
+            # (d) implementation == machine under the rule flags lifted from the source
+            for i, (op, m, rec) in enumerate(zip(ops, src, o["trace"])):
+                ok_res = m[0] == rec["res"]
+                ok_cls = (m[1] in rec["cls"]) or (m[1] == "X" and rec["cls"] == [])
+                ok_par = (m[2] == "-" and not rec["changed"]) or ([m[2]] == rec["changed"])
+                if not (ok_res and ok_cls and ok_par):
+                    probs.append(mk("correspondence",
+                                    f"op {i} ({op}) of {ops} on {name}/{cfg}: implementation ({rec['res']}, {rec['cls']}, "
+                                    f"{rec['changed']}) vs Lean machine under the SOURCE-DERIVED rules [{mo[3]}]: {m}",
+                                    "C19.src_model_trace", cls=name, cfg=cfg, op=op, index=i))
+                    break
             # (a) repaired machine == specification automaton (theorem <m>_refines_spec, instantiated)
             for i, (op, m, (sres, scls)) in enumerate(zip(ops, rep, spec)):
                 mres = "ok" if (op == "k" and not ad.claims_pickle) else m[0]
